@@ -59,8 +59,8 @@ namespace bxdecay0 {
     double p;
     double tclev;
     double thlev;
-    particle * ipg563 = nullptr;
-    particle * ipg559 = nullptr;
+    int npg563 = -1;
+    int npg559 = -1;
     // Subroutine describes the deexcitation process in Se76 nucleus
     // after 2b-decay of Ge76 to ground and excited 0+ and 2+ levels
     // of Se76 ("Table of Isotopes", 7th ed., 1978).
@@ -112,7 +112,7 @@ namespace bxdecay0 {
     p      = prng_() * (cg + cK);
     if (p <= cg) { /* CARE */
       decay0_gamma(prng_, event_, Egamma, tclev, thlev, tdlev);
-      ipg563 = &event_.grab_last_particle();
+      npg563 = event_.get_particles().size() - 1;
       /* CARE */
     } else {
       decay0_electron(prng_, event_, Egamma - EbindK, tclev, thlev, tdlev);
@@ -129,13 +129,15 @@ namespace bxdecay0 {
     p      = prng_() * (cg + cK);
     if (p <= cg) {
       decay0_gamma(prng_, event_, Egamma, tclev, thlev, tdlev);
-      ipg559 = &event_.grab_last_particle();
+      npg559 = event_.get_particles().size() - 1;
     } else {
       decay0_electron(prng_, event_, Egamma - EbindK, tclev, thlev, tdlev);
       decay0_gamma(prng_, event_, EbindK, 0., 0., tdlev);
     } /* CARE */
     // Angular correlation between gammas 559 and 563 keV, L.Pandola + VIT
-    if (ipg559 != nullptr && ipg563 != nullptr) {
+    if (npg559 >= 0 && npg563 >= 0) {
+      particle * ipg559 = &event_.grab_particles()[npg559];
+      particle * ipg563 = &event_.grab_particles()[npg563];
       double p559 = ipg559->get_p();
       double p563 = ipg563->get_p();
       // Coefficients in formula 1+a2*ctet**2+a4*ctet**4 are from:
